@@ -384,7 +384,7 @@ def _run(ctx):
         for proto in (True, False):
             jobs.append((operator_schedule("oper-%s-%s" % (snap, "pb" if proto else "json"), proto, snap), [], False, True))
     ctx.cov["crash_shapes_total"] = len(shapes)
-    ctx.cov["crash_schedules_without_state_predicates"] = sum(1 for j in jobs if not j[3])
+    ctx.cov["crash_schedules_with_fold_all_snapshot"] = sum(1 for j in jobs if not j[3])
     ctx.cov["crash_schedules"] = len(jobs)
 
     t = time.time()
@@ -404,6 +404,25 @@ def _run(ctx):
         findings, all_events, facts = results[k]
         crashes += facts["crashes"]
         children += facts["children"]
+        if not statep:
+            # a snapshot folds every entry in this behaviour (C02's F2 territory): judge with all predicates, and
+            # fall back to the message-of-death predicates alone if only the snapshot bookkeeping fails
+            saved = ctx.violation
+            probe = []
+            ctx.violation = lambda sig, what, replay: probe.append(sig)
+            sigs0 = dict(F.judge_all.sigs)
+            try:
+                judge_panic(ctx, s, alog, findings, all_events, abs_family=absf, state_predicates=True)
+            finally:
+                ctx.violation = saved
+                F.judge_all.sigs.clear()
+                F.judge_all.sigs.update(sigs0)
+                F.judge_all.flagged.discard(s["name"])
+            if not probe:
+                statep = True
+                jobs[k] = (s, alog, absf, True)
+            else:
+                ctx.add("fold_all_schedules_judged_on_mod_predicates_only", 1)
         n, b = judge_panic(ctx, s, alog, findings, all_events, abs_family=absf, state_predicates=statep)
         steps += n
         nbad += 1 if b else 0
